@@ -6,7 +6,7 @@
 //   P   the format's Parser driven synchronously on a pre-filled input queue (read_meta::yes, buffers_type::any)
 //   P2  the same with read_meta::no, buffers_type::single and the input cut into 61-byte pieces
 //   RB  the full osmium::io::Reader on a memory buffer          (E1, E5, E7..E9 and all gz/bz2 seeds)
-//   RF  the full osmium::io::Reader on a file (memfd)           (ditto)
+//   RF  the full osmium::io::Reader on a file (memfd)           (E1, E5, E7..E9; gz/bz2 seeds in E1 and E2)
 // ORACLE: the parse must terminate and either deliver buffers or throw something derived from std::exception; every
 // delivered item is walked by walk_buffer() below, which checks *itself* that every sub-item, string and size field stays
 // inside the extent of the item that owns it (a runaway iterator can stay inside the buffer's allocation for a long
@@ -235,7 +235,8 @@ static Case make_case(uint64_t rank) {
     const size_t n = s.data.size();
     c.fmt = base_fmt(s);
     const bool cheap_class = B.kind == K_TRUNC_RAW || B.kind == K_TRUNC_FLD || B.kind == K_LEN || B.kind == K_LONG || B.kind == K_UDEL || B.kind == K_UDUP;
-    if (cheap_class || compressed(s)) c.drivers |= D_RB | D_RF | D_P2;
+    if (cheap_class) c.drivers |= D_RB | D_RF | D_P2;
+    else if (compressed(s)) c.drivers |= (B.kind == K_SUB ? D_RB | D_RF : D_RB);     // both decompressor families in E1/E2, the buffer one in E3
     if (c.fmt == "pbf") c.drivers |= D_P2;
     int ff = 0, fo = 0;
     std::string ecl, label;
@@ -697,7 +698,15 @@ static const double CASE_TIMEOUT = 10.0;
 
 // the enumeration of one part
 static bool explore(const Args& a, const std::string& part) {
-    benum::Sampler smp(a.seed + fnv(part), 2, 4001);
+    // samples: one per process in three of the shards of the NDEBUG build (the driver keeps 24 over all parts), picked by a
+    // hash of rank and seed so that they spread over seeds and edit positions
+    unsigned n_samples = 0; const uint64_t smp_mod = std::max<uint64_t>(1, TOTAL / (a.nshards * 4ull));
+#ifdef NDEBUG
+    const bool sampling_shard = a.shard % 5 == 0 && a.shard < 15;
+#else
+    const bool sampling_shard = false;
+#endif
+    auto want_sample = [&](uint64_t rank) { return sampling_shard && n_samples < 1 && ((rank ^ (a.seed + 0x9e37u)) * 0x9E3779B97F4A7C15ull >> 20) % smp_mod == 0 && ++n_samples; };
     benum::Isolation iso; iso.case_timeout_s = CASE_TIMEOUT;
     auto body = [&](uint64_t rank) {
         Case c = make_case(rank);
@@ -717,7 +726,7 @@ static bool explore(const Args& a, const std::string& part) {
         if (o.threw) ++C[o.objects ? "threw_after_delivering_objects" : "threw"]; else ++C["accepted"];
         C["objects_traversed"] += o.objects;
         if (first_time(text)) benum::setv("outcomes", text);
-        if (smp.want(rank)) benum::sample(c.cls + " | " + c.desc + " -> " + text + " objects=" + std::to_string(o.objects) + (c.input.size() <= 48 ? " input=" + benum::hex(c.input) : ""));
+        if (want_sample(rank)) benum::sample(c.cls + " | " + c.desc + " -> " + text + " objects=" + std::to_string(o.objects) + (c.input.size() <= 48 ? " input=" + benum::hex(c.input) : ""));
     };
     auto on_death = [&](uint64_t rank, const std::string& what, const std::string& err) {
         Case c = make_case(rank);
